@@ -18,7 +18,8 @@ pub struct C06;
 #[derive(Clone, Debug, Serialize, Deserialize)]
 pub struct Case {
     pub g: GCase,
-    /// 0 = grammar as generated, 1 = `S: S X | X; X: t1 | .. | tn`, 2 = `S: X S | X`
+    /// 0 = grammar as generated, 1 = `S: S X | X; X: t1 | .. | tn`, 2 = `S: X S | X`,
+    /// 3 = shape 1 over the wide pool (24 terminals expected in one state)
     pub shape: u8,
     pub prios: Vec<u16>,
     pub raw_inputs: Vec<String>,
@@ -30,10 +31,14 @@ pub struct Case {
 
 pub fn spec_of(c: &Case) -> GrammarSpec {
     let mut s = c.g.spec.clone();
+    if c.shape == 3 {
+        // wide family: one state expects all 24 terminals
+        s.terms = gen::twide_pool();
+    }
     if c.shape > 0 {
         let n = s.terms.len();
         let x_alts: Vec<AltSpec> = (0..n).map(|t| AltSpec::of(vec![Sym::T(t)])).collect();
-        let s_alts = if c.shape == 1 {
+        let s_alts = if c.shape != 2 {
             vec![AltSpec::of(vec![Sym::N(0), Sym::N(1)]), AltSpec::of(vec![Sym::N(1)])]
         } else {
             vec![AltSpec::of(vec![Sym::N(1), Sym::N(0)]), AltSpec::of(vec![Sym::N(1)])]
@@ -111,7 +116,7 @@ impl Prop for C06 {
                 inputs,
                 16,
             ),
-            prop_oneof![1 => Just(0u8), 2 => Just(1u8), 1 => Just(2u8)],
+            prop_oneof![2 => Just(0u8), 4 => Just(1u8), 2 => Just(2u8), 1 => Just(3u8)],
             proptest::collection::vec(any::<u16>(), 6),
             proptest::collection::vec("[abc ]{0,12}", raws),
             any::<bool>(),
